@@ -1,0 +1,27 @@
+//go:build verif
+
+package util
+
+// Contracts for the gvc verifier (/verif). Comment-only; never compiled into
+// a normal build.
+
+//gvc:func EncodeLEB128
+//gvc:  props C06
+//gvc:  theory bv
+//gvc:  loop 1 unroll 10
+//gvc:  ensures len: len(result) == spec_leb_len(num)
+//gvc:  ensures bytes: forall(k, 0, 10, k < len(result) ==> result[k] == spec_leb_byte(num, k))
+//gvc:end
+
+//gvc:func DecodeLEB128
+//gvc:  props C06 C53
+//gvc:  theory bv
+//gvc:  results v rest err
+//gvc:  loop 1 unroll 11
+//gvc:  let n = spec_leb_scan(arr(input), off(input), len(input))
+//gvc:  ensures empty: len(input) == 0 ==> err == nil && v == 0 && rest == input
+//gvc:  ensures over: (err != nil) == (len(input) > 0 && n > 9)
+//gvc:  ensures kind: err != nil ==> err == ErrLengthOverflow && v == 0 && rest == input
+//gvc:  ensures rest: err == nil && len(input) > 0 ==> rest == input[n:]
+//gvc:  ensures val: err == nil && len(input) > 0 ==> v == spec_leb_value(arr(input), off(input), n)
+//gvc:end
